@@ -4,7 +4,7 @@ NOTES = ("All checks share one Coq development and one harness; ./check --setup 
 NOT_APPLICABLE = {}
 CHECKS = {
     "C12": {
-        "text": "Proved over any group satisfying explicit prime-order laws: unblinding an evaluation of the blinded point equals the evaluation of the unblinded point for every invertible blinding; the server's answer is exponent*point with exponent 1/(key+PRF(tag)) under every history; blinding hides the point iff r<>1; different exponents give different outputs; finalize is the labelled digest of input, tag and unblinded point. ell is proved prime (Pratt certificate) and the model's scalar inversion is proved to be the inverse mod ell. The model (scalars, hashes, transcripts concrete; group operations through a dalek oracle) is bit-exact with the Rust on every run.",
+        "text": "Proved over any group satisfying explicit prime-order laws: unblinding an evaluation of the blinded point equals the evaluation of the unblinded point for every invertible blinding; the server's answer is exponent*point with exponent 1/(key+PRF(tag)) under every history; blinding hides the point iff r<>1; different exponents give different outputs; answers do not depend on which other tags were punctured before (C12_history_independent); finalize is the labelled digest of input, tag and unblinded point. ell is proved prime (Pratt certificate) and the model's scalar inversion is proved to be the inverse mod ell. The model (scalars, hashes, transcripts concrete; group operations through a dalek oracle) is bit-exact with the Rust on every run.",
         "note": 'Partial: the group laws of ristretto255 encodings are a premise (GrpLaws); freshness of blinding is measured.',
     },
     "C13": {
@@ -12,7 +12,7 @@ CHECKS = {
         "note": 'Partial: turning special soundness into soundness needs the random-oracle argument for the challenge hash, not proved here.',
     },
     "C14": {
-        "text": "Refinement proved: for every operation history over a family of instances (evaluate, puncture, clone, export+import), each instance equals its creation state with its lineage's punctures applied; key / public key never change; an instance answers iff point decodable, tag registered and not punctured in its lineage, always with the same value (uses the GGM history theorem at depth 8). Histories incl. resync of existing instances are run against the Rust and the model on every check; key material and the exported key-state bytes (bincode of key, public key, GGM prefixes as bitvec, punctured list) are compared byte for byte through a digest; the reader of those bytes is modelled too and import(export s) = s is proved (C14_export_import), so the state copy used by the history theorem is what the byte-level reader computes.",
+        "text": "Refinement proved: for every operation history over a family of instances (evaluate, puncture, clone, export+import), each instance equals its creation state with its lineage's punctures applied; key / public key never change; an instance answers iff point decodable, tag registered and not punctured in its lineage, always with the same value (uses the GGM history theorem at depth 8). Histories incl. resync of existing instances are run against the Rust and the model on every check; key material and the exported key-state bytes (bincode of key, public key, GGM prefixes as bitvec, punctured list) are compared byte for byte through a digest; the reader of those bytes is modelled too and import(export s) = s is proved (C14_export_import), so the state copy used by the history theorem is what the byte-level reader computes; the premise of that theorem is proved for every reachable state (C14_export_import_reachable).",
         "note": 'The reader accepts the canonical form bincode/bitvec write (head index 0, exact word count); every strict prefix and targeted damages of an export are refused by model and Rust alike.',
     },
     "C15": {
@@ -95,7 +95,7 @@ CHECKS = {
                 "recovery from t distinct points returns the shared (t, M, R); everything but the share point is a function of (t,M,R,T); "
                 "threshold 0 never recovers; re-sharing lies on the same polynomial. The model is tied to the Rust by a bit-exact "
                 "differential run on every check.",
-        "note": "Trusted: Coq kernel, extraction (ExtrOcamlBasic), the hand-written model validated by correspondence, gen_params.py, the harness. "
+        "note": "Known finding C16/short-sharing (message + coins shorter than 16 bytes: points of a sharing under another transcript are accepted when the wrong key decrypts alike; mechanism proved). Trusted: Coq kernel, extraction (ExtrOcamlBasic), the hand-written model validated by correspondence, gen_params.py, the harness. "
                 "Assumed: sampler termination as an explicit premise; MAC collision events appear as explicit disjuncts, never as hypotheses.",
     },
 }
